@@ -209,12 +209,12 @@ Proof.
 Qed.
 
 Lemma rArrayICb_elem_set : forall e loc old v,
-  char_range v -> ochar (p_min e) -> ochar (p_max e) ->
+  char_range old -> char_range v -> ochar (p_min e) -> ochar (p_max e) ->
   exists res, rArrayICb_elem e loc old [Ai v] = Some res /\
               set_spec zkey Ai Ai (p_min e) (p_max e) loc old v res.
 Proof.
-  intros e loc old v Hv Hmn Hmx. unfold rArrayICb_elem. cbn [arg_i].
-  rewrite (wrap8_id v Hv), (omap_wrap8_id _ Hmn), (omap_wrap8_id _ Hmx).
+  intros e loc old v Hold Hv Hmn Hmx. unfold rArrayICb_elem. cbn [arg_i].
+  rewrite (wrap8_id old Hold), (wrap8_id v Hv), (omap_wrap8_id _ Hmn), (omap_wrap8_id _ Hmx).
   eexists. split; [reflexivity|]. apply int_lab_spec.
 Qed.
 
@@ -813,6 +813,20 @@ Proof.
   - exact (numeric_in_range _ _ _ _ _ _ _ _ _ _ H Hord E).
 Qed.
 
+Lemma char_range_0 : char_range 0.
+Proof. unfold char_range. lia. Qed.
+
+(* rArrayICb: the stored value does not depend on the previous content (only the
+   undo event does) *)
+Lemma rArrayICb_elem_stored : forall e loc old old' args st o,
+  rArrayICb_elem e loc old args = Some (st, o) -> args <> [] ->
+  exists o', rArrayICb_elem e loc old' args = Some (st, o').
+Proof.
+  intros e loc old old' args st o H Hne. unfold rArrayICb_elem in *.
+  destruct args as [|a r]; [congruence|]. destruct (arg_i a); [|discriminate].
+  unfold limit_apply_bcast in *. inversion H; subst. eexists. reflexivity.
+Qed.
+
 Lemma elem_inv : forall k e cb loc old args st o,
   elem_cb k = Some cb -> env_ok e k ->
   bounds_ordered (kind_key k) (p_min e) (p_max e) -> map_in_range e ->
@@ -846,7 +860,9 @@ Proof.
     rewrite H in E. inversion E; subst. cbn [fst] in S1. unfold clampK in S1. subst st'.
     split; [exact I|]. exact (symbol_in_range e s k0 Hmap H0).
   - inversion Hcb; subst cb. destruct Henv as [Hmn Hmx].
-    destruct (numeric_set_inv _ _ _ _ _ _ _ _ _ _ (NS_arrayI e loc old v H0 Hmn Hmx) Hord H) as [_ R].
+    (* what is stored does not depend on the previous content *)
+    destruct (rArrayICb_elem_stored e loc old 0 [Ai v] st o H ltac:(discriminate)) as [o' H'].
+    destruct (numeric_set_inv _ _ _ _ _ _ _ _ _ _ (NS_arrayI e loc 0 v char_range_0 H0 Hmn Hmx) Hord H') as [_ R].
     split; [exact I|exact R].
   - inversion Hcb; subst cb. destruct Henv as [Hmn Hmx].
     destruct (numeric_set_inv _ _ _ _ _ _ _ _ _ _ (NS_paramF e loc old b Hv H0 Hmn Hmx) Hord H) as [S R].
